@@ -151,7 +151,10 @@ def a1(prog: Program, chk: Check) -> None:
     n = 0
     for ci in prog.classes.values():
         for mname, mu in ci.methods.items():
-            if not any("lru_cache" in norm(d) for d in mu.node.decorator_list):
+            if not any(k in norm(d) for d in mu.node.decorator_list
+                       for k in ("lru_cache", "functools.cache", "cached_property", "memoize",
+                                 "cache(")) and \
+                    not any(norm(d) == "cache" for d in mu.node.decorator_list):
                 continue
             n += 1
             fam = _family(prog, ci)
